@@ -31,7 +31,10 @@ two parameters, one intermediate, sin(t), exp, abs; no use of t when the identif
 generating the identifier variant raises, the case passes.  Otherwise the module must import/compile and index functions, init values,
 rhs, monitor_values, explicit_euler and generalized_rush_larsen must equal the fresh-name module by name (identifier <-> zq1) at 3
 points (rtol 1e-12).  One case = one (identifier, role, back end).  The fresh-name module must itself work on the back end, otherwise
-the case is skipped.  Non-trivial: every case; distinct by (identifier, role, back end, model)."""
+the case is skipped.  Non-trivial: every case; distinct by (identifier, role, back end, model).  Before the fixed list, the generated code itself is asked (discover): the NumPy module of three 'rich' templates (own-state
+derivatives with repeated sub-expressions, which a common-subexpression pass would pull into temporaries) is parsed and every name its
+rhs / monitor / scheme functions bind - assignment targets and formals that are no model name - that is not in the fixed list is tried
+as a state, parameter and intermediate of the rich templates in the same way."""
 
 
 def _same(got, want, rtol, atol=1e-12) -> bool:
@@ -43,8 +46,18 @@ def _same(got, want, rtol, atol=1e-12) -> bool:
     return cm.close(got, want, rtol, atol)
 
 
+# templates whose own-state derivatives repeat sub-expressions (what a common-subexpression pass would pull out into temporaries)
+RICH = {
+    "state": "parameters(a=1.5, b=0.5)\nstates({N}=0.7, y=-0.4)\ni1 = a*{N} + y\nd{N}_dt = -b*{N}*exp(a*{N}) + exp(a*{N})/(1 + exp(a*{N})) + i1*0.25\ndy_dt = {N} - y*a*exp(b*y) + exp(b*y)/(2 + exp(b*y))\n",
+    "parameter": "parameters({N}=1.5, b=0.5)\nstates(x=0.7, y=-0.4)\ni1 = {N}*x + y\ndx_dt = -b*x*exp({N}*x) + exp({N}*x)/(1 + exp({N}*x)) + i1*0.25\ndy_dt = x - y*{N}*exp(b*y) + exp(b*y)/(2 + exp(b*y))\n",
+    "intermediate": "parameters(a=1.5, b=0.5)\nstates(x=0.7, y=-0.4)\n{N} = a*x + y\ndx_dt = -b*x*exp(a*x) + exp(a*x)/(1 + exp(a*x)) + {N}*0.25\ndy_dt = x - y*a*exp(b*y) + exp(b*y)/(2 + exp(b*y)) + {N}\n",
+}
+
+
 def cases(tier, seed, focus):
     k = 0
+    # first: let the generated code itself say which names it uses for its own variables (see discover)
+    yield {"discover": True, "probe": True, "identifier": "", "role": "state", "backends": ["numpy", "c"], "tags": ["C19"]}
     for i, nm in enumerate(NAMES):
         for role in TEMPLATES:
             bes = ["numpy", "c"] + (["jax"] if (i % 3 == 0 or nm.startswith("_values") or nm in ("jax", "numpy")) else [])
@@ -71,13 +84,50 @@ def texts(c):
         old = pool[0]
         sub = lambda new: re.sub(r"(?<![A-Za-z0-9_])(d?)" + re.escape(old) + r"(_dt)?(?![A-Za-z0-9_])", lambda mm: (mm.group(1) + new + (mm.group(2) or "")) if (mm.group(1) == "" or mm.group(2)) else mm.group(0), m.text)  # noqa: E731
         return sub(FRESH), sub(nm)
-    tpl = TEMPLATES[role]
+    tpl = (RICH if c.get("tpl") == "rich" else TEMPLATES)[role]
     if nm in ("t", "time"):  # the model must not use the same spelling for the time variable
         tpl = tpl.replace(" + sin(t)", "")
     return tpl.format(N=FRESH), tpl.format(N=nm)
 
 
+def discover():
+    """identifiers that the generated NumPy functions bind themselves (assignment targets and formals that are no model name), read
+    from the code generated for the rich templates with the fresh name: whatever a generator or scheme introduces shows up here"""
+    import ast as _ast
+
+    found = set()
+    for role, tpl in RICH.items():
+        text = tpl.format(N=FRESH)
+        try:
+            ode = cm.load(text)
+            code = cm.py_code(ode, SCHEMES)
+            ref = mg.RefModel(text)
+        except Exception:  # noqa: BLE001
+            continue
+        model_names = set(ref.states) | set(ref.params) | set(ref.assigns)
+        for fn in [n for n in _ast.walk(_ast.parse(code)) if isinstance(n, _ast.FunctionDef)]:
+            if fn.name.endswith("_index") or fn.name.startswith("init_"):
+                continue  # model names are only strings / keywords there
+            for n in _ast.walk(fn):
+                if isinstance(n, _ast.Name) and isinstance(n.ctx, _ast.Store) and n.id not in model_names:
+                    found.add(n.id)
+                elif isinstance(n, _ast.arg) and n.arg not in model_names:
+                    found.add(n.arg)
+    return sorted(found)
+
+
 def check(case):
+    if case.get("discover"):
+        res = cm.new_result()
+        names = [n for n in discover() if n not in NAMES]
+        cm.note(res, f"discovered-generator-names:{len(names)}")
+        for nm_ in names:
+            for role_ in RICH:
+                sub = check({"identifier": nm_, "role": role_, "tpl": "rich", "backends": case.get("backends", ["numpy"])})
+                for k_ in ("failures", "errors", "nontrivial"):
+                    res[k_] += sub[k_]
+                res["evals"] += sub["evals"]
+        return res
     res = cm.new_result()
     c = dict(case)
     nm, role = c["identifier"], c["role"]
@@ -103,7 +153,7 @@ def check(case):
     ren = lambda n: nm if n == FRESH else (f"d{nm}_dt" if n == f"d{FRESH}_dt" else n)  # noqa: E731
     for bk in c.get("backends", ["numpy"]):
         def add(mode, what, exp=None, act=None, detail=""):
-            res["failures"].append(cm.fail(f"C19:{bk}:{mode}:{nm}", what, {"identifier": nm, "role": role, "backends": [bk], "base": base_text, "variant": var_text}, exp, act, detail))
+            res["failures"].append(cm.fail(f"C19:{bk}:{mode}:{nm}", what, {"identifier": nm, "role": role, "backends": [bk], "base": base_text, "variant": var_text, "tpl": c.get("tpl")}, exp, act, detail))
 
         try:
             b = be.build(base_ode, bk, SCHEMES)
